@@ -45,6 +45,21 @@ def main():
             if a.replay:
                 return optchecks.replay(prop, a.replay)
             return optchecks.run(prop, a.tier, seed)
+        if prop == "C10":
+            from hv import c10checks
+            if a.replay:
+                return c10checks.replay(prop, a.replay)
+            return c10checks.run(prop, a.tier, seed)
+        if prop == "C12":
+            from hv import replchecks
+            if a.replay:
+                return replchecks.replay(prop, a.replay)
+            return replchecks.run(prop, a.tier, seed)
+        if prop == "C11":
+            from hv import dbgchecks
+            if a.replay:
+                return dbgchecks.replay(prop, a.replay)
+            return dbgchecks.run(prop, a.tier, seed)
         print("unknown property", prop)
         return 2
     except C.BuildError as e:
